@@ -82,10 +82,21 @@ func c20Child(args []string) {
 	ports := hx.FreePorts(3)
 	addrs := []string{srvAddr(ports[0]), srvAddr(ports[1])}
 	admin := srvAddr(ports[2])
+	// the small cache is backed by a store with slow calls now and then: evicted entries are reloaded
+	// and saves overlap with lookups
+	ms := hx.NewMemStore("mem://c20/a")
+	ms.NoLog = true
+	var storeN atomic.Int64
+	ms.Script = func(op, key string, cur []byte) hx.StoreFault {
+		if storeN.Add(1)%17 == 0 {
+			return hx.StoreFault{Kind: "delay", Delay: 3 * time.Millisecond}
+		}
+		return hx.StoreFault{}
+	}
 	mkCfg := func(variant int) *config.PikeConfig {
 		cfg := &config.PikeConfig{
 			Compresses: []config.CompressConfig{{Name: "cmp", Levels: map[string]uint{"gzip": uint(1 + variant*5), "br": uint(1 + variant*4)}}},
-			Caches:     []config.CacheConfig{{Name: "c20a", Size: 64, HitForPass: "1s"}, {Name: "c20b", Size: 5000, HitForPass: "1s"}},
+			Caches:     []config.CacheConfig{{Name: "c20a", Size: 64, HitForPass: "1s", Store: "mem://c20/a"}, {Name: "c20b", Size: 5000, HitForPass: "1s"}},
 			Upstreams: []config.UpstreamConfig{{Name: "u0", Servers: []config.UpstreamServerConfig{{Addr: farm.Origins[0].URL()}, {Addr: farm.Origins[1].URL()}}},
 				{Name: "u1", Servers: []config.UpstreamServerConfig{{Addr: farm.Origins[variant%2].URL()}}}},
 			Locations: []config.LocationConfig{{Name: "l0", Upstream: "u0", Prefixes: []string{"/c20/"}}, {Name: "l1", Upstream: "u1", Prefixes: []string{"/c20/u/"}}},
@@ -400,7 +411,7 @@ func c20Proc(r *hx.Run, seconds int) {
 }
 
 func c20(r *hx.Run) {
-	r.Rule = "race-instrumented. (1) child process: in-process pike with two servers/caches (one of 64 entries), T = 1 s and hit-for-pass 1 s on the real clock, 64 clients for N seconds on 12 hot keys, per-client cold keys and uncacheable keys with GET/HEAD/POST, six Accept-Encoding values and matching/non-matching validators, a purger through the admin API, and a reloader alternating two configurations through the same Reset/Start calls main.update uses; hook callbacks removed. Every response must be well-formed and equal to what the upstream produces for its key (bodies are a function of the URI, so any version is right; 304 only for matching validators). (2) directed schedule with unordered release of a woken waiter and the next request. (3) the real binary under 16 clients and a storm of admin PUT /config saves. All race logs (driver child, pike process) are parsed; reports with a pike frame are de-duplicated by outermost entry-point pair and each is a violation; a crash is a violation. Non-trivial/distinct = (label, encoding) combinations observed + directed schedule."
+	r.Rule = "race-instrumented. (1) child process: in-process pike with two servers/caches (one of 64 entries backed by a store with occasional slow calls), T = 1 s and hit-for-pass 1 s on the real clock, 64 clients for N seconds on 12 hot keys, per-client cold keys and uncacheable keys with GET/HEAD/POST, six Accept-Encoding values and matching/non-matching validators, a purger through the admin API, and a reloader alternating two configurations through the same Reset/Start calls main.update uses; hook callbacks removed. Every response must be well-formed and equal to what the upstream produces for its key (bodies are a function of the URI, so any version is right; 304 only for matching validators). (2) directed schedule with unordered release of a woken waiter and the next request. (3) the real binary under 16 clients and a storm of admin PUT /config saves. All race logs (driver child, pike process) are parsed; reports with a pike frame are de-duplicated by outermost entry-point pair and each is a violation; a crash is a violation. Non-trivial/distinct = (label, encoding) combinations observed + directed schedule."
 	r.Assume = []string{"a request landing between two steps of one reload may get pike's 503 'not found' (counted, judged by C16 for unchanged parts)", "the race detector sees only the interleavings produced"}
 	exe, _ := os.Executable()
 	seconds := r.Pick(12, 90)
